@@ -2877,6 +2877,18 @@ def rule_zero_exponent_normalised(col, facts):
     return n
 
 
+def _bsc_delegates(facts, f):
+    """Private helpers of the same crate that buffer_size_const hands part of its computation to (anything it calls
+    in its own crate that is not one of the option / format getters it reads)."""
+    out = []
+    for _b, c, _a, _d, _t in f.calls():
+        cn = callee_name(c)
+        for h in facts.by_short.get(cn, []):
+            if h.crate == f.crate and h.short != f.short and len([1 for i in range(len(h.blocks)) if h.live(i)]) >= 3:
+                out.append(h.short)
+    return sorted(set(out))
+
+
 def rule_break_magnitude(col, facts):
     """GRD-abs (buffer_size_const): the negative exponent break is only validated to be <= 0, so i32::MIN is a
     valid option.  Its magnitude must not be taken with `i32::abs` (panics in debug builds, wraps to a negative
@@ -2895,6 +2907,8 @@ def rule_break_magnitude(col, facts):
                 where = f.loc(f.blocks[bb]["ts"])
         if last_seg(cn) in ("unsigned_abs", "saturating_abs", "checked_abs", "wrapping_abs"):
             total += 1
+    if partial == 0 and total == 0 and _bsc_delegates(facts, f):
+        raise ShapeUnknown("buffer_size_const computes the exponent term in %s: not read" % _bsc_delegates(facts, f)[:2])
     col.check(R, "buffer_size_const:break-magnitude", partial == 0 and total >= 1,
               "the magnitude of the negative exponent break is taken with i32::abs (%d site(s); total alternatives: %d): negative_exponent_break(i32::MIN) is a valid option, panics in debug builds and gives a 64-byte bound in release (1e-70 then needs 72 bytes)" % (partial, total), where)
 
@@ -3475,6 +3489,8 @@ def rule_bound_sums_saturate(col, facts):
                         bad += 1
                         where = f.loc(st[3])
     sat = sum(1 for bb, c, a, d, t in f.calls() if last_seg(callee_name(c)) in ("saturating_add", "checked_add") and any(user_controlled(op_expr(f, x)) for x in a))
+    if bad == 0 and sat < 2 and _bsc_delegates(facts, f):
+        raise ShapeUnknown("buffer_size_const computes its option-derived terms in %s: not read" % _bsc_delegates(facts, f)[:2])
     col.check(R, "buffer_size_const:option-derived-terms-saturate", bad == 0 and sat >= 2,
               "%d plain `+` of a quantity derived from min_significant_digits / the exponent breaks (total additions: %d): min_significant_digits(usize::MAX) overflows the bound (debug panic, wrapped bound in release)" % (bad, sat), where)
 
